@@ -42,10 +42,12 @@ Ro(d, m, p) == [k |-> "rot", v |-> "x", d |-> d, m |-> m, p |-> p]
 Pr(a, b) == [k |-> "prod", l |-> a, r |-> b]
 \* dependent product: first factor's shape uses the coordinate u of the second
 DepCir == Cir(<<A1(-4, "u"), A0(0)>>, A0(4))
+DepCirT == Cir(<<A1(-4, "u"), A1(-2, "t")>>, A0(4))             \* centre also moves with the parameter t, constant radius
+DepCirR == Cir(V2(0, 0), A1(6, "u"))                              \* radius 3/2 + u: the volume depends on the other factor's point
 Depth1 == {Un(a, b) : a \in Prims2, b \in Prims2} \cup {Cu(a, b) : a \in Prims2, b \in Prims2}
           \cup {An(a, b) : a \in Prims2, b \in Prims2}
           \cup {Tr(a, t) : a \in Prims2, t \in TransVecs} \cup {Ro(a, m, p) : a \in Prims2, m \in Rots, p \in RotPts}
-          \cup {Pr(a, i) : a \in Prims2, i \in Ints} \cup {Pr(DepCir, i) : i \in Ints}
+          \cup {Pr(a, i) : a \in Prims2, i \in Ints} \cup {Pr(d, i) : d \in {DepCir, DepCirT, DepCirR}, i \in Ints}
           \cup {Pr(i, Tr(a, t)) : i \in Ints, a \in {Cir(V2(0, 0), A0(6)), Par(V2(0, 0), V2(8, 0), V2(0, 8))}, t \in TransVecs}    \* transformed second factor
           \cup {Pr(i, Ro(a, "p345", p)) : i \in Ints, a \in {Tri(V2(0, 0), V2(10, 0), V2(0, 8))}, p \in RotPts}
 Exh == Prims2 \cup Ints \cup {Sph, SphT} \cup {x \in Depth1 : x.k \notin {"union", "cut", "and"} \/ x.l # x.r}
